@@ -121,7 +121,13 @@ Writable(t) ==
     [] t.k = "dict"  -> Writable(t.kt) /\ Writable(t.vt)
     [] t.k = "fun"   -> t.tp = "none" /\ Writable(t.r) /\ \A i \in 1..Len(t.ps) : Writable(t.ps[i])
     [] OTHER -> TRUE
-Targets == {t \in Universe : Writable(t) /\ IsStruct(t)}
+\* authorizations of the same kind and size that overlap without being equal (auth(E1, E2) vs auth(E1, E3)):
+\* equality / subtyping of authorizations must look at *every* member
+OverlapAuths == {Conj({"E1", "E2"}), Conj({"E1", "E3"}), Conj({"E2", "E3"}),
+                 Disj({"E1", "E2"}), Disj({"E1", "E3"}), Disj({"E2", "E3"})}
+OverlapTargets == UNION {{Ref(a, Nom("S")), VArr(Ref(a, Nom("S"))), Dict(P("String"), Ref(a, Nom("S"))), Opt(Ref(a, Nom("S")))}
+                           : a \in OverlapAuths}
+Targets == {t \in Universe : Writable(t) /\ IsStruct(t)} \cup OverlapTargets
 
 One == Num("Int")
 sS == Comp("S")
@@ -146,8 +152,14 @@ PlainVals ==
 OptVals == {SomeV(One), SomeV(SomeV(One)), SomeV(sS), SomeV(ArrV(P("Int"), <<One>>)), SomeV(RefV(EB!Un, Nom("S"), "sv")),
             SomeV(RefV(Conj({"E1"}), Nom("S"), "sv")), SomeV(Simple("String")), NilV}
 \* every value is observed through an AnyStruct variable; references also through a variable of their own type
+OverlapRefs == {RefV(a, Nom("S"), "sv") : a \in OverlapAuths}
+OverlapVals == OverlapRefs
+    \cup {ArrV(Ref(r.a, Nom("S")), <<r>>) : r \in OverlapRefs}
+    \cup {DictV(P("String"), Ref(r.a, Nom("S")), <<<<Simple("String"), r>>>>) : r \in OverlapRefs}
+    \cup {SomeV(r) : r \in OverlapRefs}
 Cases == {[v |-> v, held |-> "any"] : v \in PlainVals \cup RefVals \cup OptVals}
     \cup {[v |-> v, held |-> "exact"] : v \in RefVals \cup {x \in OptVals : x.k = "some" /\ x.v.k = "ref"}}
+    \cup {[v |-> v, held |-> "exact"] : v \in OverlapVals}
 
 \* ------------------------------------------------------------------ lemmas
 \* the optional-unwrapping rule, as the property states it
